@@ -10,7 +10,10 @@ case = {
       {"k":"marray","vars":[...],"unit":u,"name":s}
       {"k":"quantity","node":j}             (a measurement, or a derived quantity m_a*m_b)
       {"k":"pair","var":i}                  ((value, error) tuple)
-      {"k":"scalarNum","c":bits,"int":b}
+      {"k":"scalarNum","c":bits,"int":b, "np":b, "ty": None|"npint"|"npf32"|"frac"}   (number types)
+      a quantity leaf whose var is listed in case["readings"] is a measurement recorded from READINGS
+      (q.Measurement([..])): value/error of the var are the mean / error on the mean (harness arithmetic)
+      list leaves may carry "ints": [b..] (a list mixing Python ints and floats)
       {"k":"listNum","cs":[bits],"int":b}   {"k":"ndarrayNum","cs":[bits],"int":b}
   "tree": ["leaf", idx] | ["fn","un"|"deg",name,T] | ["op",name,T,T] | ["log2",Tbase,Tx],
   "rho": [[i,j,bits]], "label": "<what>:<kinds>" }
@@ -27,10 +30,21 @@ FN_DEG = list(exprgen.DEG)
 FUNCS = [("un", f) for f in FN_UN] + [("deg", f) for f in FN_DEG]
 # the other operand next to a MeasurementArray
 OTHER_KINDS = ["scalarInt", "scalarFloat", "scalarNpFloat", "quantity", "derivedQuantity", "pair", "listFloat",
-               "listInt", "ndarrayFloat", "ndarrayInt", "marray", "marraySame", "marrayDerived"]
-# argument kinds of the math functions
+               "listInt", "ndarrayFloat", "ndarrayInt", "marray", "marraySame", "marrayDerived",
+               # a single measurement recorded from repeated readings (as many readings as the array has
+               # elements, or another number); numbers of the other types the ecosystem produces
+               # (values these types represent exactly: dyadic, so the model sees the same number)
+               "repeatedQuantity", "scalarNpInt", "scalarNpFloat32", "scalarFraction"]
+# argument kinds of the math functions (np.float32 / Fraction arguments are excluded: a float32
+# argument gives a float32 result, 1e-7 from the binary64 model; numpy has no sqrt/sin/.. of a Fraction)
 FN_KINDS = ["marray", "marrayDerived", "listFloat", "listInt", "ndarrayFloat", "ndarrayInt",
-            "scalarFloat", "scalarInt", "scalarNpFloat", "quantity"]
+            "scalarFloat", "scalarInt", "scalarNpFloat", "quantity", "repeatedQuantity", "scalarNpInt"]
+# kinds that get an additional SPECIAL-VALUE case per operator / function (first element special)
+OP_SPECIAL_KINDS = ["scalarInt", "scalarFloat", "listFloat", "listInt", "ndarrayFloat", "ndarrayInt",
+                    "marray", "quantity"]
+FN_SPECIAL_KINDS = ["marray", "listFloat", "listInt", "ndarrayFloat", "ndarrayInt", "scalarFloat",
+                    "scalarInt"]
+LOG2_SPECIAL_KINDS = ["listFloat", "listInt", "ndarrayFloat", "ndarrayInt", "scalarFloat", "scalarInt"]
 UNITS = ["", "m", "s", "kg", "m/s", "kg*m^2/s^2"]
 DEG_INNER = {"sind": "sin", "cosd": "cos", "tand": "tan", "secd": "sec", "cscd": "csc",
              "cotd": "cot"}
@@ -72,6 +86,60 @@ def fn_profile(cls, name):
             "exp": "expable"}.get(name, "any")
 
 
+# special arguments: where a function / operator takes an exactly representable special value (zeros of
+# the trigonometric functions in degrees, 0 and 1, exact squares and powers, ends of a domain)
+FN_SPECIALS = {
+    "deg": [0.0, 30.0, 45.0, 60.0, 90.0, 120.0, 135.0, 180.0, 270.0, 360.0, -90.0, -180.0, 450.0, 720.0],
+    "sqrt": [0.0, 1.0, 4.0, 2.25, 0.25, 9.0], "exp": [0.0, 1.0, -1.0, 2.0],
+    "ln": [1.0, 2.0, 10.0, 0.5], "log10": [1.0, 10.0, 100.0, 0.1, 1000.0],
+    "asin": [0.0, 1.0, -1.0, 0.5, -0.5], "acos": [0.0, 1.0, -1.0, 0.5, -0.5], "atan": [0.0, 1.0, -1.0],
+    "trig": [0.0, math.pi, math.pi / 2, -math.pi, math.pi / 4, 2 * math.pi, 1.0, -1.0],
+}
+OP_SPECIALS = {   # (the other operand on the right, on the left)
+    "add": ([0.0, 1.0, -1.0], [0.0, 1.0]), "sub": ([0.0, 1.0], [0.0, 1.0]),
+    "mul": ([0.0, 1.0, -1.0, 2.0], [0.0, 1.0, -1.0, 2.0]),
+    "div": ([1.0, -1.0, 2.0, 0.5], [0.0, 1.0, -1.0]),
+    "pow": ([0.0, 1.0, 2.0, -1.0, 0.5, 3.0], [1.0, 0.0, 2.0, 10.0, 0.5]),
+}
+ARRAY_SPECIALS = [0.0, 1.0, -1.0, 2.0, 4.0, 0.5]
+LOG2_SPECIALS = ([2.0, 10.0, 0.5, 4.0], [1.0, 2.0, 4.0, 8.0, 100.0, 0.25, 1000.0])
+
+
+def fn_specials(cls, name):
+    if cls == "deg":
+        return FN_SPECIALS["deg"]
+    return FN_SPECIALS.get(name, FN_SPECIALS["trig"])
+
+
+_LEN_UN = {
+    "neg": lambda x: -x, "sqrt": math.sqrt, "exp": math.exp, "sin": math.sin, "cos": math.cos,
+    "tan": math.tan, "sec": lambda x: 1 / math.cos(x), "csc": lambda x: 1 / math.sin(x),
+    "cot": lambda x: 1 / math.tan(x), "asin": math.asin, "acos": math.acos, "atan": math.atan,
+    "log10": math.log10, "ln": math.log,
+}
+
+
+def lenient_un(name, x):
+    """the mathematical domain only (special-value cases go TO the edges the ordinary generator keeps
+    away from); None = undefined there"""
+    try:
+        v = _LEN_UN[name](x)
+    except (ValueError, ZeroDivisionError, OverflowError):
+        return None
+    return None if isinstance(v, complex) else v
+
+
+def lenient_bin(op, a, b):
+    try:
+        if op == "log":
+            return math.log(b) / math.log(a)
+        v = {"add": lambda: a + b, "sub": lambda: a - b, "mul": lambda: a * b, "div": lambda: a / b,
+             "pow": lambda: a ** b}[op]()
+    except (ValueError, ZeroDivisionError, OverflowError):
+        return None
+    return None if isinstance(v, complex) else v
+
+
 class Builder:
     def __init__(self, rng, n):
         self.rng, self.n = rng, n
@@ -79,11 +147,23 @@ class Builder:
         self.nodes, self.leaves = [], []
         self.rho = []
         self._same = None
+        self.readings = {}
+        self.specials = None      # special values for the leaf being built (position 0 always special)
 
-    def new_var(self, prof, unit="", zero_err=False):
-        v = draw(self.rng, prof, integer=self.rng.random() < 0.15 and prof != "small")
+    def draw(self, prof, integer=False, pos=0):
+        sp = self.specials
+        # position 0 is always special, position 1 never (so that a container is never all-special:
+        # what the first element does to the others is the point), the others often
+        if sp and (pos == 0 or (pos != 1 and self.rng.random() < 0.4)):
+            cand = [v for v in sp if not integer or float(v).is_integer()]
+            if cand:
+                return float(self.rng.choice(cand))
+        return draw(self.rng, prof, integer=integer)
+
+    def new_var(self, prof, unit="", zero_err=False, pos=0):
+        v = self.draw(prof, integer=self.rng.random() < 0.15 and prof != "small", pos=pos)
         r = self.rng.random()
-        e = 0.0 if (zero_err or r < 0.1) else abs(v) * 10 ** self.rng.uniform(-4, -0.8)
+        e = 0.0 if (zero_err or r < 0.1) else (abs(v) or 1.0) * 10 ** self.rng.uniform(-4, -0.8)
         self.vals.append(float(v))
         self.errs.append(float(e))
         self.units.append(unit)
@@ -96,7 +176,7 @@ class Builder:
             if kind == "marraySame" and self._same is not None:
                 return ["leaf", self._same]
             unit = rng.choice(UNITS)
-            vs = [self.new_var(prof, unit) for _ in range(n)]
+            vs = [self.new_var(prof, unit, pos=k) for k in range(n)]
             self.leaves.append({"k": "marray", "vars": vs, "unit": unit,
                                 "name": rng.choice(["", "len", "t"])})
             self._same = len(self.leaves) - 1
@@ -114,15 +194,45 @@ class Builder:
             return ["op", "mul", a, ["fn", "un", "cos", c]] if prof in ("small",) else \
                 ["op", "add", a, ["op", "mul", ["leaf", self._push(
                     {"k": "scalarNum", "c": bits(0.01), "int": False})], c]]
-        if kind in ("scalarInt", "scalarFloat", "scalarNpFloat"):
-            v = draw(rng, prof, integer=(kind == "scalarInt"))
-            return ["leaf", self._push({"k": "scalarNum", "c": bits(v), "int": kind == "scalarInt",
-                                        "np": kind == "scalarNpFloat"})]
+        if kind in ("scalarInt", "scalarFloat", "scalarNpFloat", "scalarNpInt", "scalarNpFloat32",
+                    "scalarFraction"):
+            integer = kind in ("scalarInt", "scalarNpInt")
+            v = self.draw(prof, integer=integer)
+            ty = {"scalarNpInt": "npint", "scalarNpFloat32": "npf32", "scalarFraction": "frac"}.get(kind)
+            if ty in ("npf32", "frac"):
+                # a value np.float32 / Fraction(p, 8) and binary64 all represent exactly
+                v = (round(v * 8) or (1 if v > 0 else -1)) / 8.0
+            return ["leaf", self._push({"k": "scalarNum", "c": bits(v), "int": integer,
+                                        "np": kind == "scalarNpFloat", "ty": ty})]
         if kind in ("listFloat", "listInt", "ndarrayFloat", "ndarrayInt"):
             integer = kind.endswith("Int")
-            cs = [bits(draw(rng, prof, integer=integer)) for _ in range(n)]
-            return ["leaf", self._push({"k": "listNum" if kind.startswith("list") else "ndarrayNum",
-                                        "cs": cs, "int": integer})]
+            vs = [self.draw(prof, integer=integer, pos=k) for k in range(n)]
+            lf = {"k": "listNum" if kind.startswith("list") else "ndarrayNum",
+                  "cs": [bits(v) for v in vs], "int": integer}
+            if self.specials and kind == "listFloat":
+                # a list MIXING Python ints and floats (what a user types: [0, 30, 45.5])
+                lf["ints"] = [bool(float(v).is_integer() and rng.random() < (0.8 if k == 0 else 0.5))
+                              for k, v in enumerate(vs)]
+            return ["leaf", self._push(lf)]
+        if kind == "repeatedQuantity":
+            # ONE measurement recorded from readings; deliberately as many readings as the array has
+            # elements (then it could be mistaken for a sequence operand), sometimes another number
+            cnt = n if (n >= 2 and rng.random() < 0.65) else rng.choice([k for k in (2, 3, 4, n + 1) if k != n and k >= 2])
+            centre = draw(rng, prof, integer=False)
+            while True:
+                # dyadic readings close to the centre: sums are exact, the mean is one rounding
+                step = max(abs(centre), 0.25) / 64.0
+                rd = [math.floor(centre / step + rng.randint(-3, 3)) * step for _ in range(cnt)]
+                if len(set(rd)) >= 2:
+                    break
+            mean = sum(rd) / cnt
+            sem = math.sqrt(sum((x - mean) ** 2 for x in rd) / (cnt - 1)) / math.sqrt(cnt)
+            self.vals.append(float(mean))
+            self.errs.append(float(sem))
+            self.units.append(rng.choice(UNITS))
+            i = len(self.vals) - 1
+            self.readings[str(i)] = [bits(x) for x in rd]
+            return ["leaf", self._push({"k": "quantity", "node": self._node(["var", i]), "rep": True})]
         if kind == "quantity":
             i = self.new_var(prof, rng.choice(UNITS))
             self._node(["var", i])
@@ -166,7 +276,8 @@ class Builder:
                 l["nodes"] = [self._node(["var", v]) for v in l["vars"]]
         return {"n": self.n, "vals": [bits(v) for v in self.vals],
                 "errs": [bits(e) for e in self.errs], "units": self.units, "nodes": self.nodes,
-                "leaves": self.leaves, "tree": tree, "rho": self.rho, "label": label}
+                "leaves": self.leaves, "tree": tree, "rho": self.rho, "label": label,
+                "readings": self.readings}
 
 
 # ----------------------------------------------------------------------------- reference / domain
@@ -203,36 +314,40 @@ def ref_at(case, tree, i, cache=None):
         if k == "scalarNum":
             return unbits(l["c"]), True
         return unbits(l["cs"][i]), True
+    special = bool(case.get("special"))
+    un = lenient_un if special else exprgen.ref_un
     if t == "fn":
         r = ref_at(case, tree[3], i, cache)
         if r is None:
             return None
         x, plain = r
         if tree[1] == "deg":
-            v = exprgen.ref_un(DEG_INNER[tree[2]], x / 180 * math.pi)
+            v = un(DEG_INNER[tree[2]], x / 180 * math.pi)
         else:
-            v = exprgen.ref_un(tree[2], x)
-        return None if v is None or not _ok(v) else (v, plain)
+            v = un(tree[2], x)
+        return None if v is None or not _ok(v, special) else (v, plain)
     if t == "op":
         ra, rb = ref_at(case, tree[2], i, cache), ref_at(case, tree[3], i, cache)
         if ra is None or rb is None:
             return None
         (a, pa), (b, pb) = ra, rb
-        v = exprgen.ref_bin(tree[1], a, b, b_is_const=pb)
-        return None if v is None or not _ok(v) else (v, pa and pb)
+        v = lenient_bin(tree[1], a, b) if special else exprgen.ref_bin(tree[1], a, b, b_is_const=pb)
+        return None if v is None or not _ok(v, special) else (v, pa and pb)
     if t == "log2":
         ra, rb = ref_at(case, tree[1], i, cache), ref_at(case, tree[2], i, cache)
         if ra is None or rb is None:
             return None
         (a, pa), (b, pb) = ra, rb
-        v = exprgen.ref_bin("log", a, b)
-        return None if v is None or not _ok(v) else (v, pa and pb)
+        v = lenient_bin("log", a, b) if special else exprgen.ref_bin("log", a, b)
+        return None if v is None or not _ok(v, special) else (v, pa and pb)
     raise KeyError(t)
 
 
-def _ok(v):
-    return not isinstance(v, complex) and math.isfinite(v) and abs(v) < 1e8 and \
-        (v == 0 or abs(v) > 1e-8)
+def _ok(v, special=False):
+    """special-value cases: any finite result below 1e8 (sin(pi) = 1.2e-16 is a result like any other)"""
+    if isinstance(v, complex) or not math.isfinite(v) or abs(v) >= 1e8:
+        return False
+    return special or v == 0 or abs(v) > 1e-8
 
 
 def in_domain(case):
@@ -294,6 +409,59 @@ def gen_log2(rng, kbase, kx, n=None):
     return _retry(rng, make)
 
 
+def gen_binop_special(rng, op, other, array_left, n=None):
+    """as gen_binop, the other operand (and sometimes the array) taking special values: 0, 1, -1,
+    exponents 0 / 1 / 2 / -1 / 0.5, bases 1 / 0 / 10 -- the first element always, the others often"""
+    def make():
+        b = Builder(rng, n or rng.randint(2, 6))
+        if op == "pow":
+            pa, po = ("base", "expo") if array_left else ("expo", "base")
+        else:
+            pa = po = "any"
+        if rng.random() < 0.3:
+            b.specials = ARRAY_SPECIALS
+        a = b.leaf("marray", pa)
+        b.specials = OP_SPECIALS[op][0 if array_left else 1]
+        b._same = None
+        o = b.leaf(other, po)
+        b.specials = None
+        tree = ["op", op, a, o] if array_left else ["op", op, o, a]
+        c = b.finish(tree, "op:{}:{}:special".format(op, "marray," + other if array_left
+                                                     else other + ",marray"))
+        c["special"] = True
+        return c
+    return _retry(rng, make, tries=200)
+
+
+def gen_fn_special(rng, cls, name, kind, n=None):
+    """as gen_fn, the argument taking the function's special values (zeros of sind / cosd, 0, 1, exact
+    squares and powers, the ends of the domain): the FIRST element always, the others often"""
+    def make():
+        b = Builder(rng, n or rng.randint(2, 6))
+        b.specials = fn_specials(cls, name)
+        a = b.leaf(kind, fn_profile(cls, name))
+        b.specials = None
+        c = b.finish(["fn", cls, name, a], "fn:{}:{}:special".format(name, kind))
+        c["special"] = True
+        return c
+    return _retry(rng, make, tries=200)
+
+
+def gen_log2_special(rng, kbase, kx, n=None):
+    def make():
+        b = Builder(rng, n or rng.randint(2, 6))
+        b.specials = LOG2_SPECIALS[0]
+        base = b.leaf(kbase, "base")
+        b._same = None
+        b.specials = LOG2_SPECIALS[1]
+        x = b.leaf(kx, "pos")
+        b.specials = None
+        c = b.finish(["log2", base, x], "log2:{},{}:special".format(kbase, kx))
+        c["special"] = True
+        return c
+    return _retry(rng, make, tries=200)
+
+
 def gen_tree(rng, depth=None, n=None):
     """a random composition (depth 2-4) with at least one MeasurementArray"""
     def make():
@@ -351,6 +519,11 @@ def combos():
     c += [("fn", cls, name, kind) for cls, name in FUNCS for kind in FN_KINDS]
     c += [("neg", kind) for kind in ("marray", "marrayDerived", "quantity")]
     c += [("log2", kb, kx) for kb in FN_KINDS for kx in FN_KINDS]
+    # special values
+    c += [("opS", op, other, left) for op in OPS for other in OP_SPECIAL_KINDS for left in (True, False)]
+    c += [("fnS", cls, name, kind) for cls, name in FUNCS for kind in FN_SPECIAL_KINDS]
+    c += [("log2S", kb, kx) for kb in LOG2_SPECIAL_KINDS for kx in LOG2_SPECIAL_KINDS
+          if not (kb.startswith("scalar") and kx.startswith("scalar"))]
     return c
 
 
@@ -361,6 +534,12 @@ def gen_combo(rng, c, n=None):
         return gen_fn(rng, c[1], c[2], c[3], n=n)
     if c[0] == "neg":
         return gen_neg(rng, c[1], n=n)
+    if c[0] == "opS":
+        return gen_binop_special(rng, c[1], c[2], c[3], n=n)
+    if c[0] == "fnS":
+        return gen_fn_special(rng, c[1], c[2], c[3], n=n)
+    if c[0] == "log2S":
+        return gen_log2_special(rng, c[1], c[2], n=n)
     return gen_log2(rng, c[1], c[2], n=n)
 
 
@@ -420,7 +599,12 @@ def build_objects(q, np, case):
             i = nd[1]
             if i not in meas:
                 kw = {"unit": case["units"][i]} if case["units"][i] else {}
-                meas[i] = q.Measurement(vals[i], errs[i], **kw)
+                rd = (case.get("readings") or {}).get(str(i))
+                if rd is not None:
+                    # ONE measurement recorded from readings (mean +/- error on the mean)
+                    meas[i] = q.Measurement([unbits(x) for x in rd], **kw)
+                else:
+                    meas[i] = q.Measurement(vals[i], errs[i], **kw)
             o = meas[i]
         elif nd[0] == "un":
             o = getattr(q, nd[1])(node(nd[2]))
@@ -435,15 +619,29 @@ def build_objects(q, np, case):
         elif k == "pair":
             objs[idx] = (vals[l["var"]], errs[l["var"]])
         elif k == "scalarNum":
-            c = unbits(l["c"])
-            objs[idx] = int(c) if l["int"] else (np.float64(c) if l.get("np") else c)
+            objs[idx] = scalar_obj(np, l)
         elif k == "listNum":
-            objs[idx] = [int(unbits(c)) if l["int"] else unbits(c) for c in l["cs"]]
+            ints = l.get("ints") or [False] * len(l["cs"])
+            objs[idx] = [int(unbits(c)) if (l["int"] or f) else unbits(c) for c, f in zip(l["cs"], ints)]
         elif k == "ndarrayNum":
             objs[idx] = np.array([int(unbits(c)) if l["int"] else unbits(c) for c in l["cs"]])
     for i, j, r in case["rho"]:
         q.set_correlation(meas[i], meas[j], unbits(r))
     return objs
+
+
+def scalar_obj(np, l):
+    """the Python object of a number leaf, in the type the leaf asks for"""
+    from fractions import Fraction
+    c = unbits(l["c"])
+    ty = l.get("ty")
+    if ty == "npint":
+        return np.int64(int(c))
+    if ty == "npf32":
+        return np.float32(c)
+    if ty == "frac":
+        return Fraction(c)
+    return int(c) if l["int"] else (np.float64(c) if l.get("np") else c)
 
 
 def _apply_fn(q, cls, name, x):
@@ -492,13 +690,21 @@ def pretty(case):
                 ", unit=" + repr(l["unit"]) if l["unit"] else "",
                 ", name=" + repr(l["name"]) if l["name"] else "")
         if k == "quantity":
+            nd = case["nodes"][l["node"]]
+            rd = (case.get("readings") or {}).get(str(nd[1])) if nd[0] == "var" else None
+            if rd is not None:
+                return "Measurement({!r})".format([unbits(x) for x in rd])
             return "Q" + _pn(case, l["node"])
         if k == "pair":
             return "({!r}, {!r})".format(unbits(case["vals"][l["var"]]), unbits(case["errs"][l["var"]]))
         if k == "scalarNum":
             c = unbits(l["c"])
+            if l.get("ty"):
+                return {"npint": "np.int64({!r})", "npf32": "np.float32({!r})",
+                        "frac": "Fraction({!r})"}[l["ty"]].format(int(c) if l["int"] else c)
             return repr(int(c) if l["int"] else c) if not l.get("np") else "np.float64({!r})".format(c)
-        cs = [int(unbits(c)) if l["int"] else unbits(c) for c in l["cs"]]
+        ints = l.get("ints") or [False] * len(l["cs"])
+        cs = [int(unbits(c)) if (l["int"] or f) else unbits(c) for c, f in zip(l["cs"], ints)]
         return repr(cs) if k == "listNum" else "np.array({!r})".format(cs)
 
     def tr(t):
